@@ -107,25 +107,25 @@ PROPS = {
         "lean": "Originium.Props.C06",
         "suites": ["key", "db", "txnconc"],
         "skeleton_funcs": DB_SKEL,
-        "trusted_base": DB_TB,
+        "trusted_base": DB_TB + ["extract/gotrans.go (the Go-to-Lean translator, DESIGN section 14): regenerates GenOracle.* and GenTxn.* (oracle.hasConflict, cleanUpCommittedTxns, newCommitTs, doneRead, Txn.modify/Get/Commit, DB.View/Update) from /repo on every run; maps are association lists, integers Nat, calls with outside effects an ordered event list; the tie theorems (OracleTie, TxnTie) are part of this property's module"],
         "assumptions": ["as C05; free-running goroutine histories are additionally checked by the serial-order checker in the txnconc suite"],
-        "explanation": "Inv2 (reads equal the MVCC value at readTs and, for a committed transaction, at commitTs-1), real-time order from timestamp monotonicity",
+        "explanation": "Inv2 (reads equal the MVCC value at readTs and, for a committed transaction, at commitTs-1), real-time order from timestamp monotonicity; the validation itself (conflict check, read recording) is the translated Go code (C06_code_validation)",
     },
     "C07": {
         "lean": "Originium.Props.C07",
         "suites": ["key", "db"],
         "skeleton_funcs": DB_SKEL,
-        "trusted_base": DB_TB,
+        "trusted_base": DB_TB + ["extract/gotrans.go (the Go-to-Lean translator, DESIGN section 14): regenerates GenOracle.* and GenTxn.* (oracle.hasConflict, cleanUpCommittedTxns, newCommitTs, doneRead, Txn.modify/Get/Commit, DB.View/Update) from /repo on every run; maps are association lists, integers Nat, calls with outside effects an ordered event list; the tie theorems (OracleTie, TxnTie) are part of this property's module"],
         "assumptions": ["read and write sets are the keys themselves (after the F14 repair)"],
-        "explanation": "conflict_iff in every reachable state incl. clean-up of the committed list under arbitrary watermark lag",
+        "explanation": "conflict_iff in every reachable state incl. clean-up of the committed list under arbitrary watermark lag; oracle.hasConflict, cleanUpCommittedTxns, newCommitTs, Txn.Get and Txn.Commit translated from the Go source on every run and proved equal to the model (C07_code_*)",
     },
     "C08": {
         "lean": "Originium.Props.C08",
         "suites": ["key", "db"],
         "skeleton_funcs": DB_SKEL,
-        "trusted_base": DB_TB,
+        "trusted_base": DB_TB + ["extract/gotrans.go (the Go-to-Lean translator, DESIGN section 14): regenerates GenOracle.* and GenTxn.* (oracle.hasConflict, cleanUpCommittedTxns, newCommitTs, doneRead, Txn.modify/Get/Commit, DB.View/Update) from /repo on every run; maps are association lists, integers Nat, calls with outside effects an ordered event list; the tie theorems (OracleTie, TxnTie) are part of this property's module"],
         "assumptions": [],
-        "explanation": "frame theorem for non-committing steps + invariant 'every commit in the history was produced by a successful Commit' + storage holds only history entries; API decision logic stated outright and used by the driver",
+        "explanation": "frame theorem for non-committing steps + invariant 'every commit in the history was produced by a successful Commit' + storage holds only history entries; API decision logic stated outright and used by the driver; Txn.modify/Get/Commit and DB.View/Update translated from the Go source on every run and proved to be that logic (C08_code_*)",
     },
     "C09": {
         "lean": "Originium.Props.C09",
@@ -173,9 +173,10 @@ PROPS = {
         "lean": "Originium.Props.C13",
         "suites": ["wm"],
         "skeleton_funcs": ["pkg/watermark:WaterMark.process", "pkg/watermark:WaterMark.WaitForMark", "pkg/watermark:WaterMark.Begin", "pkg/watermark:WaterMark.Done", "pkg/watermark:WaterMark.DoneUntil"],
-        "trusted_base": COMMON_TB + ["container/heap keeps the minimum at index 0; the channel markC is FIFO"],
+        "trusted_base": COMMON_TB + ["container/heap keeps the minimum at index 0; the channel markC is FIFO",
+                                     "extract/gotrans.go (the Go-to-Lean translator, DESIGN section 14): regenerates GenWM.handle (the markC branch of WaterMark.process) from /repo on every run; maps are association lists, integers Nat/Int, effects an ordered event list; the tie theorems (WMTie.rel_run: the translated handler refines Watermark.step for every message sequence) are part of this property's module"],
         "assumptions": ["wall-clock clauses ('returns once that is the case', context cancellation timing) are runtime behaviour: partial for those clauses"],
-        "explanation": "the process loop as a fold over the FIFO mark sequence; invariant proof for all sequences; real WaterMark compared after every mark",
+        "explanation": "the process loop as a fold over the FIFO mark sequence; invariant proof for all sequences; the message handler translated from the Go source on every run and proved to refine the model (C13_code_*); real WaterMark compared after every mark",
     },
     "C15": {
         "lean": "Originium.Props.C15",
